@@ -118,3 +118,40 @@ func VerifC36_adjust() {
 
 	assertAcyclicC36(nodes, n)
 }
+
+// VerifC36_closeStream: closing an open stream (closeStream is how streams leave serverConn.streams:
+// RST_STREAM in either direction, handler completion, connection teardown) from an arbitrary acyclic
+// state keeps the parent graph acyclic (the closed stream stays reachable through parent pointers), and
+// a following PRIORITY update on the remaining state is again covered by VerifC36_adjust because the
+// post-state is one of its pre-states. Here: close, then one more adjust, invariant after both.
+func VerifC36_closeStream() {
+	vrt.MapOrder(true)
+	n := vrt.Range("n", 1, vrt.Param("N", 3))
+	sc, _ := newConnH2()
+	nodes, open, streams := buildForestC36(n)
+	sc.streams = streams
+	for i := 0; i < n; i++ {
+		if open[i] {
+			attachStreamH2(sc, nodes[i])
+			sc.curOpenStreams++
+		}
+	}
+	switch vrt.Choose("state", 3) {
+	case 1:
+		nodes[0].state = stateHalfClosedRemote
+	case 2:
+		nodes[0].state = stateHalfClosedLocal
+	}
+	sc.closeStream(nodes[0], errClientDisconnected)
+	vrt.Cover("C36/closeStream-returned")
+	assertAcyclicC36(nodes, n)
+	_, still := sc.streams[nodes[0].id]
+	vrt.Assert(!still, "C36/closed-stream-left-the-map")
+
+	if n >= 2 && open[1] {
+		pp := PriorityParam{StreamDep: vrt.U32("dep"), Exclusive: vrt.Bool("exclusive"), Weight: vrt.Byte("weight")}
+		vrt.Assume(pp.StreamDep < 1<<31)
+		sc.processPriority(&PriorityFrame{FrameHeader: FrameHeader{Type: FramePriority, StreamID: nodes[1].id, Length: 5}, PriorityParam: pp})
+		assertAcyclicC36(nodes, n)
+	}
+}
